@@ -27,16 +27,14 @@ Definition sc_invb (s : sc) : bool :=
 Definition last_seq (l : list counter) : Z := match rev l with c :: _ => fst c | [] => 0 end.
 Definition first_seq (l : list counter) : Z := match l with c :: _ => fst c | [] => 0 end.
 
-(** the two situations in which [seqCounters.add] goes wrong (findings) *)
-(** full window and every stored number is below the window of the new number *)
-Definition sc_jump (s : sc) (n : Z) : bool :=
-  (sc_n s =? sc_w s) && (0 <? sc_n s) && (last_seq (sc_live s) <? sc_minFromMax s n).
-(** the number is inside the window, not stored, and above the smallest stored number *)
+(** the situation in which [seqCounters.add] still goes wrong (finding c17-counters-insert-overwrites):
+    the number is inside the window, not stored, and above the smallest stored number.
+    (The other one, a jump past a full window, was repaired in ffc392a.) *)
 Definition sc_between (s : sc) (n : Z) : bool :=
   (0 <? sc_n s) && (sc_minFromMax s (last_seq (sc_live s)) <=? n) && (n <? last_seq (sc_live s))
   && negb (existsb (fun c => fst c =? n) (sc_live s)) && (first_seq (sc_live s) <? n).
 
-Definition sc_add_pre (s : sc) (n : Z) : bool := negb (sc_jump s n) && negb (sc_between s n).
+Definition sc_add_pre (s : sc) (n : Z) : bool := negb (sc_between s n).
 
 (** list-level meaning of [add] under [sc_add_pre]: the live counters as an association list *)
 Fixpoint inc_count (n : Z) (l : list counter) : list counter :=
@@ -58,7 +56,7 @@ Definition spec_add (w : Z) (l : list counter) (n : Z) : list counter :=
     else if mx <? n then
       let mn' := if n <? w then 0 else u32 (n - w + 1) in
       let nd0 := count_below mn' l in
-      let nd := if lenZ l =? w then nd0 + 1 else nd0 in
+      let nd := if (lenZ l =? w) && (nd0 <? lenZ l) then nd0 + 1 else nd0 in
       dropZ nd l ++ [(n, 1)]
     else if existsb (fun c => fst c =? n) l then inc_count n l
     else l
@@ -114,9 +112,9 @@ Definition gen_add_pre (g : gen) (name : Z) (it : item) : bool :=
        | _ => true
        end.
 
-(** [start]/[resize] to a window below what is stored is the shrink defect *)
-Definition gen_resize_pre (g : gen) (nw : Z) : bool :=
-  (0 <? nw) && (nw <? two32) && (sc_n (g_cnt g) <=? nw) && forallb (fun kb => b_n (snd kb) <=? nw) (g_bufs g).
+(** [start]/[resize] only need a window in (0, 2^32); since 9e29b04 and 502773f a window below what
+    is stored keeps the newest entries *)
+Definition gen_resize_pre (g : gen) (nw : Z) : bool := (0 <? nw) && (nw <? two32).
 
 (** * channel *)
 Definition chan_inv (c : chan) : Prop :=
@@ -140,8 +138,7 @@ Definition start_window (c : chan) (mts dur : Z) : Z :=
   u32 (u32 (Z.quot (u32 (ch_tsbd c * mts)) dur + 2) - 1).
 
 (** what the start-up part of receivedSegData needs when this upload completes the measurement
-    of the master track: a non-zero duration, every track measurable, and a window that does not
-    cut into what is stored *)
+    of the master track: a non-zero duration (segTime0 / masterSegDuration) and a window in (0, 2^32) *)
 Definition chan_start_pre (c : chan) (g2 : gen) (name : Z) : bool :=
   if (ch_mdur c =? 0) && (name =? ch_master c) then
     match lookup name (g_bufs g2) with
@@ -153,8 +150,7 @@ Definition chan_start_pre (c : chan) (g2 : gen) (name : Z) : bool :=
              if negb (i_seq i1 =? u32 (i_seq i0 + 1)) || negb (i_dur i1 =? i_dur i0) then true
              else
                let mts := match find_track name (ch_tracks c) with Some t => tr_tsOut t | None => 0 end in
-               negb (i_dur i1 =? 0) && tracks_ready g2 (ch_tracks c)
-               && gen_resize_pre g2 (start_window c mts (i_dur i1))
+               negb (i_dur i1 =? 0) && gen_resize_pre g2 (start_window c mts (i_dur i1))
            | _, _ => true
            end
     end
